@@ -94,6 +94,7 @@ static void layout_size(long N)
     nlog = 0; logging = 1; p = sodium_malloc(n); logging = 0;
     n_eval++; n_nontriv++;
     if (p == NULL) { vf_fail(key, "returned NULL (errno %d)", errno); return; }
+    if (n == 4080 || n == 4081 || n == 0) VF_SAMPLE_CASE(3, "sodium_malloc(%zu): mmap(%zu) at base, p = base+%#lx, user region ends at base+%#lx = trailing guard page; %d syscalls logged", n, total, (unsigned long) ((uintptr_t) p - LOG[0].addr), (unsigned long) ((uintptr_t) p + n - LOG[0].addr), nlog);
     for (i = 0; i < n; i++) if (p[i] != 0xdb) { vf_fail(key, "byte %zu is %02x, not the 0xdb fill", i, p[i]); break; }
     /* syscall log against the documented layout: [header RO][guard][data ... user region ends at the next guard][guard] */
     if (nlog < 1 || LOG[0].op != OP_MMAP || LOG[0].len != total) { vf_fail(key, "first call is not mmap(%zu) (got op %d len %zu)", total, nlog ? LOG[0].op : -1, nlog ? LOG[0].len : 0); }
